@@ -215,42 +215,6 @@ func crashLine(c fw.Case, msg string) (string, bool) {
 	return c.Script[n], true
 }
 
-// sigNilOverride: a Set/Get whose target-version-overrides extension holds a map entry without value.
-func sigNilOverride(c fw.Case, out []string, msg string) bool {
-	if !strings.Contains(msg, "panic nilDeref") {
-		return false
-	}
-	ln, ok := crashLine(c, msg)
-	if !ok || !(strings.HasPrefix(ln, "nb.set") || strings.HasPrefix(ln, "nb.get")) {
-		return false
-	}
-	for _, t := range strings.Fields(ln) {
-		if strings.HasPrefix(t, "x=R:112:") && strings.Contains(t, "~!") {
-			return true
-		}
-	}
-	return false
-}
-
-// sigLeafSelNilMap: LeafSelectionQuery with a change context against a configuration without values.
-func sigLeafSelNilMap(c fw.Case, out []string, msg string) bool {
-	if !strings.Contains(msg, "panic nilMapWrite") {
-		return false
-	}
-	ln, ok := crashLine(c, msg)
-	return ok && strings.HasPrefix(ln, "nb.leafsel") && strings.Contains(ln, " ctx ")
-}
-
-// sigTreeSlice: the proposal controller's validate phase panics in tree.addPathToTree on a live
-// stored path with an element in which `]` comes before `=` (or `=` without `[`).
-func sigTreeSlice(c fw.Case, out []string, msg string) bool {
-	if !strings.Contains(msg, "panic downstream sliceBounds") {
-		return false
-	}
-	ln, ok := crashLine(c, msg)
-	return ok && strings.HasPrefix(ln, "nb.set")
-}
-
 func outcomeTags(c fw.Case, out []string) []string {
 	var tags []string
 	for i, ln := range c.Script {
@@ -313,9 +277,7 @@ func shrinkCase(c fw.Case) []fw.Case {
 	return out
 }
 
-// agree: where the twin does not decide, it answers with a set of outcomes.  `either`: the
-// nil-ness of a controller-written configuration's value map decides between a crash and a normal
-// answer.  `maybe X`: the request consults a configuration written by the controllers, which may
+// agree: where the twin does not decide, it answers with a set of outcomes.  `maybe X`: the request consults a configuration written by the controllers, which may
 // not exist at all (a transaction can stall behind an earlier one waiting for a master): X, or
 // "no such configuration".
 func agree(ln, real, twin string) bool {
@@ -324,13 +286,9 @@ func agree(ln, real, twin string) bool {
 		if strings.HasPrefix(real, "err ") && strings.HasSuffix(real, " noConfig") {
 			return true
 		}
-		return real == x || agreeEither(real, x)
+		return real == x
 	}
-	return agreeEither(real, twin)
-}
-
-func agreeEither(real, twin string) bool {
-	return twin == "either" && (real == "reached" || real == "panic nilMapWrite")
+	return false
 }
 
 // Prop is the C12 correspondence check.
@@ -349,11 +307,6 @@ var Prop = &fw.Prop{
 	FixedLayout: true, // the shrinker above drops lines itself and keeps the nb.env line
 	Agree:       agree,
 	OutcomeTags: outcomeTags,
-	Sigs: map[string]func(fw.Case, []string, string) bool{
-		"nilOverride":   sigNilOverride,
-		"leafSelNilMap": sigLeafSelNilMap,
-		"treeSlice":     sigTreeSlice,
-	},
 }
 
 func init() { fw.Register(Prop) }
